@@ -23,6 +23,15 @@ Proof.
 Qed.
 Print Assumptions C09_email_special.
 
+(* the static tables of src/is_special_domain.c, read from the source on this run, are the model's names with compare
+   length strlen + 1 (hypothesis: the source still has tables of that shape; gen.py records it) *)
+Theorem C09_source_tables :
+  Gen.GenSrc.special_tables_parsed = true ->
+  map (fun r => (Hex.unhex (fst r), snd r)) Gen.GenSrc.reserved_rows_hex = map (fun n => (n, S (length n))) reserved_names /\
+  map (fun r => (Hex.unhex (fst r), snd r)) Gen.GenSrc.example_rows_hex = map (fun n => (n, S (length n))) example_tlds.
+Proof. exact source_tables. Qed.
+Print Assumptions C09_source_tables.
+
 Example C09_examples :
   special_domain (bs "mailbox.TEST") = true /\ special_domain (bs "a.b.c.example.ORG") = true /\
   special_domain (bs "localhost") = true /\ special_domain (bs "example.example") = true /\
